@@ -443,6 +443,35 @@ func TestC20(t *testing.T) {
 		c20Eval(t, again(c, 6))
 		col.Label("regress")
 	}
+	// hand-built: services that are contextual only through the dependency of a decorator on one of their tags, with the
+	// decorators declared in every order; many goroutines in three kinds of context
+	if ev.Mine(0) {
+		decs := []cfg.Decorator{
+			{Tag: "t1", Fn: "fx/lib.Decorate", Args: []cfg.Val{cfg.Str("@ctx")}},
+			{Tag: "t2", Fn: "fx/lib.Decorate"},
+			{Tag: "t3", Fn: "fx/lib.Decorate", Args: []cfg.Val{cfg.Str("x")}},
+		}
+		var c c20Case
+		for _, order := range [][]int{{0, 1}, {1, 0}, {0, 1, 2}, {2, 1, 0}, {0, 2, 1}} {
+			conf := cfg.Config{Meta: cfg.Meta{Pkg: sp("app")}, Services: []cfg.Service{
+				{Name: "ctx", Ctor: sp("fx/lib.NewObj"), Scope: sp("contextual")},
+				{Name: "a", Ctor: sp("fx/lib.NewObj"), Tags: []cfg.Tag{{Name: "t1"}}, Getter: sp("GetA"), Must: bp(true)},
+				{Name: "b", Ctor: sp("fx/lib.NewObj"), Tags: []cfg.Tag{{Name: "t2"}}},
+				{Name: "ab", Ctor: sp("fx/lib.NewObj"), Tags: []cfg.Tag{{Name: "t2"}, {Name: "t1"}, {Name: "t3"}}},
+				{Name: "user", Ctor: sp("fx/lib.NewObj"), Args: []cfg.Val{cfg.Str("@a"), cfg.Str("@b")}, Scope: sp("non_shared")},
+			}}
+			for _, i := range order {
+				conf.Decorators = append(conf.Decorators, decs[i])
+			}
+			par := fx.Op{Op: "par", Yield: []int{1, 3}}
+			for g := 0; g < 24; g++ {
+				ctx := []string{"A", "B", ""}[g%3]
+				par.Par = append(par.Par, []fx.Op{{Op: "get", ID: "a", Ctx: ctx}, {Op: "get", ID: "ab", Ctx: ctx}, {Op: "getter", ID: "GetA", Tag: "a", Ctx: ctx}, {Op: "get", ID: "user", Ctx: ctx}, {Op: "get", ID: "ctx", Ctx: ctx}})
+			}
+			c.Members = append(c.Members, c20Member{C: conf, Script: fx.Script{Procs: 16, Timeout: 120, Ops: []fx.Op{par, {Op: "counters"}}}, Labels: []string{"hand-built:contextual-through-a-decorator", fmt.Sprintf("decorators:%d", len(order))}})
+		}
+		c20Eval(t, c)
+	}
 	batch := pick(8, 12)
 	setRapidChecks(pick(4, 30))
 	opts := behaviouralOpts()
